@@ -117,7 +117,7 @@ func optionalEmpty(k string, i int) bool {
 // detail, and as the own message of an *outermost* wrapper that
 // replaces the whole message.
 var emptyAnywhere = []string{"hint", "detail"}
-var emptyAtRoot = []string{"uwrapoverride", "uopt", "rwrapfull"}
+var emptyAtRoot = []string{"uwrapoverride", "uopt", "rwrapfull", "handledmsg"}
 
 // SprinkleEmpty sets some of those strings to "".
 func SprinkleEmpty(t *rapid.T, s *Spec) {
